@@ -373,6 +373,81 @@ def runF (table : List Load) : Nat → Load → Sh α → Sh α × Bool
 
 end
 
+/-! ## what the calls of user code of one attempt should be (specification)
+
+Pure functions of the load tree: which user code is called in which order when
+nothing fails.  `Proofs/LoadTreeTrace.lean` shows that the machine's own event list is
+always a prefix of `mainTrace`, and equal to it when the attempt succeeds. -/
+
+/-- kind, parser, label of an event -/
+abbrev Key := Nat × Nat × Nat
+
+def Ev.key (e : Ev) : Key := (e.kind, e.pid, e.lab)
+
+def hookKeys (kind pid : Nat) (hs : List Hook) : List Key := hs.map fun h => (kind, pid, h.lab)
+
+mutual
+/-- match-rule object processor calls of an object tree, in textual order -/
+def OT.convs : OT → List Hook
+  | .conv h => [h]
+  | .obj _ _ kids => OT.convsL kids
+def OT.convsL : List OT → List Hook
+  | [] => []
+  | t :: ts => t.convs ++ OT.convsL ts
+end
+
+mutual
+/-- constructors of the user class objects of an object tree: children before
+their container -/
+def OT.inits : OT → List Hook
+  | .conv _ => []
+  | .obj (some _) init kids => OT.initsL kids ++ [init]
+  | .obj none _ kids => OT.initsL kids
+def OT.initsL : List OT → List Hook
+  | [] => []
+  | t :: ts => t.inits ++ OT.initsL ts
+end
+
+/-- per model file: parser, constructors, provider calls, object processor calls -/
+structure NodeSum where
+  pid : Nat
+  inits : List Hook
+  resolve : List Hook
+  oprocs : List Hook
+deriving DecidableEq, Repr
+
+mutual
+/-- the files of a load in registration order (a file before the files it imports) -/
+def Load.sums : Load → List NodeSum
+  | .mk pid _ _ root _ imps resolve _ oprocs _ => ⟨pid, root.inits, resolve, oprocs⟩ :: Load.sumsL imps
+def Load.sumsL : List Load → List NodeSum
+  | [] => []
+  | L :: Ls => L.sums ++ Load.sumsL Ls
+end
+
+mutual
+/-- calls while an imported file (and what it imports) is parsed -/
+def Load.buildTr : Load → List Key
+  | .mk pid _ _ root pre imps _ _ _ mproc =>
+    hookKeys 0 pid root.convs ++ hookKeys 1 pid pre.toList ++ Load.buildTrL imps ++ [(5, pid, mproc.lab)]
+def Load.buildTrL : List Load → List Key
+  | [] => []
+  | L :: Ls => L.buildTr ++ Load.buildTrL Ls
+end
+
+def resolveTr (ns : List NodeSum) : List Key := ns.flatMap fun n => hookKeys 2 n.pid n.resolve
+def initTr (ns : List NodeSum) : List Key := ns.flatMap fun n => hookKeys 3 n.pid n.inits
+def procTr (ns : List NodeSum) : List Key := ns.flatMap fun n => hookKeys 4 n.pid n.oprocs
+
+/-- all calls of user code of a successful attempt, in order: parsing (match-rule
+processors, callbacks, model processors of imported files), reference resolution,
+constructors, object processors, model processors of the main file -/
+def mainTrace : Load → List Key
+  | .mk pid cs ok root pre imps resolve unres oprocs mproc =>
+    let ns := if root.isConv then [] else (Load.mk pid cs ok root pre imps resolve unres oprocs mproc).sums
+    hookKeys 0 pid root.convs ++ hookKeys 1 pid pre.toList ++ Load.buildTrL imps ++
+      resolveTr ns ++ initTr ns ++ procTr ns ++ [(5, pid, mproc.lab)]
+
 /-! ## `__init__` keyword arguments (`_end_model_construction`) -/
 namespace Kw
 
